@@ -490,6 +490,16 @@ func (v *Verifier) finish(r *Root, e *Enc) {
 				Goal: fmt.Sprintf("(=> %s %s)", retReach, goal), Src: "only the listed parts of " + name + " are modified"})
 		}
 	}
+	if ct.Functional {
+		for _, name := range sortedKeys(r.stateReads) {
+			if strings.HasPrefix(name, "kv:") || name == "bank" || strings.HasPrefix(name, "glob:") || strings.HasPrefix(name, "param") {
+				if strings.HasPrefix(name, "glob:") && r.g.errGlobals[name] != 0 {
+					continue
+				}
+				r.errorf("functional contract violated: %s reads chain state %s", ct.Key, name)
+			}
+		}
+	}
 	r.addObl(&Obligation{Name: r.fnShort + "#cover@return", Kind: "cover", Goal: retReach, ExpSat: true, Src: "some return is reachable under all assumptions"})
 }
 
